@@ -530,4 +530,196 @@ theorem cont_cases {n : Nat} {st : St α} {ph : Ph} {o : Out (List α)} {l : Loc
     have h1 := h _ List.mem_cons_self
     exact ⟨quiet_cases h1, ctx_isSome_of_benign (List.forall_mem_cons.1 h).2⟩
 
+theorem no_panic {X : Cfg α} (h1 : X.panicked = none) (h2 : X.panicked.isSome = true) : False := by
+  rw [h1] at h2; cases h2
+
+theorem finv_step (n : Nat) (s s' : Cfg α) (m : Move α) (h : FInv n s) (hs : EnvStep (machine α n) m s s') :
+    ∃ k, FInv n (advance (machine α n) k s') := by
+  obtain ⟨hr, hI, hv, hf, ht⟩ := h
+  have hb := inv_step n s s' m hI hs
+  have hr' : SReach (machine α n) s' := .step hr (.env hs trivial)
+  obtain ⟨hp, hg, hm⟩ := hI
+  cases hs with
+  | @call st stk g tr c i hc hl =>
+    have hctx : (ctxOf stk).isSome := by simp [hc]
+    simp only at hv hf ht hg hm
+    have hf1 : Fin0 (g.onIn stk.length i).ph (.inp i :: tr) := by rw [onIn_ph]; exact hf.inp i hl
+    cases i with
+    | subscribe k =>
+      obtain ⟨hq, ha⟩ := ht.quiet (.inp (.subscribe k)) (.retO) rfl rfl rfl rfl
+      rcases run_subLoop n 0 st stk (g.onIn stk.length (.subscribe k)) (.inp (.subscribe k) :: tr) with ⟨_, he⟩ | ⟨_, he⟩
+      · obtain ⟨hq, ha⟩ := ht.quiet (.inp (.subscribe k)) (.out (.subSrc 0)) rfl rfl rfl rfl
+        exact finish n hb hr' he (stuck_call ..) (fun _ _ => T_call n (by rw [ha]; exact hv) hf1 (fun d h => by cases h) hq)
+      · exact finish n hb hr' he (stuck_ret n _ _ _ _ hctx) (fun _ _ => T_ret n (by rw [ha]; exact hv) hf1 hq)
+    | sinkUp k u =>
+      obtain ⟨hq, ha⟩ := ht.quiet (.inp (.sinkUp k u)) (.retO) rfl rfl rfl rfl
+      rcases run_uLoop n 0 u st stk (g.onIn stk.length (.sinkUp k u)) (.inp (.sinkUp k u) :: tr) with he | he | he
+      · obtain ⟨hq, ha⟩ := ht.quiet (.inp (.sinkUp k u)) (.out (.srcUp 0 u)) rfl rfl rfl rfl
+        exact finish n hb hr' he (stuck_call ..) (fun _ _ => T_call n (by rw [ha]; exact hv) hf1 (fun d h => by cases h) hq)
+      · exact finish n hb hr' he (stuck_ret n _ _ _ _ hctx) (fun _ _ => T_ret n (by rw [ha]; exact hv) hf1 hq)
+      · exact finish n hb hr' rfl (stuck_panic n _ he) (fun hIX _ => (no_panic hIX.1 he).elim)
+    | srcGreet i =>
+      have ha : ∀ e2 : E α, isOpEv e2 = true → arrivals (e2 :: .inp (.srcGreet i) :: tr) = arrivals tr := by
+        intro e2 h2; cases e2 <;> simp_all [isOpEv, arrivals]
+      rcases run_g0 n i st stk (g.onIn stk.length (.srcGreet i)) (.inp (.srcGreet i) :: tr) with ⟨hz, he⟩ | ⟨hz, he⟩
+      · refine finish n hb hr' he (stuck_call ..) (fun hIX hrX => ?_)
+        have hall := (allGreeted_iff hrX hIX.2.1).2 hz
+        have hall' : allBelow n (fun j => srcGreeted j (.inp (.srcGreet i) :: tr)) = true := by
+          simpa [callCfg, srcGreeted] using hall
+        refine T_call n (by rw [ha _ rfl]; exact hv) hf1 (fun d h => by cases h) ?_
+        refine ht.step _ _ rfl rfl ?_ (by simp [isDataOut]) ?_ ?_ ?_ ?_
+        · rw [ha _ rfl]; simpa [recvData] using ht.recv
+        · simp [chkGreetOnly, isGreetOut, isSrcGreet, hall']
+        · simp [chkGreetIf, isGreetOut]
+        · simp [chkTermOnly, isTermOut]
+        · simp [chkTermIf, isSrcEnd]
+      · refine finish n hb hr' he (stuck_ret n _ _ _ _ hctx) (fun hIX hrX => ?_)
+        have hall : ¬ allBelow n (fun j => srcGreeted j (.inp (.srcGreet i) :: tr)) = true := by
+          intro hc
+          apply hz
+          apply (allGreeted_iff hrX hIX.2.1).1
+          simpa [retCfg, srcGreeted] using hc
+        refine T_ret n (by rw [ha _ rfl]; exact hv) hf1 ?_
+        refine ht.step _ _ rfl rfl ?_ (by simp [isDataOut]) ?_ ?_ ?_ ?_
+        · rw [ha _ rfl]; simpa [recvData] using ht.recv
+        · simp [chkGreetOnly, isGreetOut]
+        · simp [chkGreetIf, hall]
+        · simp [chkTermOnly, isTermOut]
+        · simp [chkTermIf, isSrcEnd]
+    | srcDown i d =>
+      have hlive := legal_srcDown hl
+      have hi : i < n := hg.lt_of_ne_idle (by simp [hlive])
+      cases d with
+      | data a =>
+        have ha : ∀ e2 : E α, isOpEv e2 = true → arrivals (e2 :: .inp (.srcDown i (.data a)) :: tr) = arrivals tr ++ [(i, a)] := by
+          intro e2 h2; cases e2 <;> simp_all [isOpEv, arrivals]
+        have hv' : (stD st i a).vals = latest n (arrivals tr ++ [(i, a)]) := vals_step hv hg.len hi
+        have hrc := recv_step ht.recv hv'
+        rcases run_d0 n i a st stk (g.onIn stk.length (.srcDown i (.data a))) (.inp (.srcDown i (.data a)) :: tr) with
+          ⟨hz, he⟩ | ⟨t, hz, hu, he⟩ | he
+        · refine finish n hb hr' he (stuck_ret n _ _ _ _ hctx) (fun hIX hrX => ?_)
+          have hgX : Glob n (stD st i a) _ := hIX.2.1
+          have hnone : allSome (stD st i a).vals = none := by
+            apply allSome_none_of_cnt
+            rw [hgX.len, ← hgX.data]; exact hz
+          refine T_ret n (by rw [ha _ rfl]; exact hv') hf1 ?_
+          refine ht.step _ _ rfl rfl ?_ (by simp [isDataOut]) ?_ ?_ ?_ ?_
+          · rw [ha _ rfl, hrc, emit, hnone]; simp [recvData]
+          · simp [chkGreetOnly, isGreetOut]
+          · simp [chkGreetIf, isSrcGreet]
+          · simp [chkTermOnly, isTermOut]
+          · simp [chkTermIf, isSrcEnd]
+        · refine finish n hb hr' he (stuck_call ..) (fun hIX hrX => ?_)
+          have hsome : allSome (stD st i a).vals = some t := by rw [← unwrapAll_eq]; exact hu
+          refine T_call n (by rw [ha _ rfl]; exact hv') hf1 (fun d h hfin => by cases h; simp [isFinal] at hfin) ?_
+          refine ht.step _ _ rfl rfl ?_ (by simp [dataCause]) ?_ ?_ ?_ ?_
+          · rw [ha _ rfl, hrc, emit, hsome]; simp [recvData]
+          · simp [chkGreetOnly, isGreetOut]
+          · simp [chkGreetIf, isSrcGreet]
+          · simp [chkTermOnly, isTermOut]
+          · simp [chkTermIf, isSrcEnd]
+        · exact finish n hb hr' rfl (stuck_panic n _ he) (fun hIX _ => (no_panic hIX.1 he).elim)
+      | term =>
+        have ha : ∀ e2 : E α, isOpEv e2 = true → arrivals (e2 :: .inp (.srcDown i .term) :: tr) = arrivals tr := by
+          intro e2 h2; cases e2 <;> simp_all [isOpEv, arrivals]
+        rcases run_e0 n st stk (g.onIn stk.length (.srcDown i .term)) (.inp (.srcDown i .term) :: tr) with ⟨hz, he⟩ | ⟨hz, he⟩
+        · refine finish n hb hr' he (stuck_call ..) (fun hIX hrX => ?_)
+          have hall := (allEnded_iff hrX hIX.2.1).2 hz
+          have hall' : allBelow n (fun j => srcEnded j (.inp (.srcDown i .term) :: tr)) = true := by
+            simpa [callCfg, srcEnded] using hall
+          have hlv : (g.onIn stk.length (.srcDown i .term : In α)).ph.sinkPh 0 = .live := by
+            apply live_of_down _ 0 .term
+            have := hIX.2.1.viols
+            simpa [callCfg] using this
+          refine T_call n (by rw [ha _ rfl]; exact hv) hf1 (fun _ _ _ => hlv) ?_
+          refine ht.step _ _ rfl rfl ?_ (by simp [isDataOut]) ?_ ?_ ?_ ?_
+          · rw [ha _ rfl]; simpa [recvData] using ht.recv
+          · simp [chkGreetOnly, isGreetOut]
+          · simp [chkGreetIf, isSrcGreet]
+          · simp [chkTermOnly, isTermOut, isSrcEnd, hall']
+          · simp [chkTermIf, isTermOut]
+        · refine finish n hb hr' he (stuck_ret n _ _ _ _ hctx) (fun hIX hrX => ?_)
+          have hall : ¬ allBelow n (fun j => srcEnded j (.inp (.srcDown i .term) :: tr)) = true := by
+            intro hc
+            apply hz
+            apply (allEnded_iff hrX hIX.2.1).1
+            simpa [retCfg, srcEnded] using hc
+          refine T_ret n (by rw [ha _ rfl]; exact hv) hf1 ?_
+          refine ht.step _ _ rfl rfl ?_ (by simp [isDataOut]) ?_ ?_ ?_ ?_
+          · rw [ha _ rfl]; simpa [recvData] using ht.recv
+          · simp [chkGreetOnly, isGreetOut]
+          · simp [chkGreetIf, isSrcGreet]
+          · simp [chkTermOnly, isTermOut]
+          · simp [chkTermIf, hall]
+      | err e =>
+        have ha : ∀ e2 : E α, isOpEv e2 = true → arrivals (e2 :: .inp (.srcDown i (.err e)) :: tr) = arrivals tr := by
+          intro e2 h2; cases e2 <;> simp_all [isOpEv, arrivals]
+        rcases run_e0 n st stk (g.onIn stk.length (.srcDown i (.err e))) (.inp (.srcDown i (.err e)) :: tr) with ⟨hz, he⟩ | ⟨hz, he⟩
+        · refine finish n hb hr' he (stuck_call ..) (fun hIX hrX => ?_)
+          have hall := (allEnded_iff hrX hIX.2.1).2 hz
+          have hall' : allBelow n (fun j => srcEnded j (.inp (.srcDown i (.err e)) :: tr)) = true := by
+            simpa [callCfg, srcEnded] using hall
+          have hlv : (g.onIn stk.length (.srcDown i (.err e) : In α)).ph.sinkPh 0 = .live := by
+            apply live_of_down _ 0 .term
+            have := hIX.2.1.viols
+            simpa [callCfg] using this
+          refine T_call n (by rw [ha _ rfl]; exact hv) hf1 (fun _ _ _ => hlv) ?_
+          refine ht.step _ _ rfl rfl ?_ (by simp [isDataOut]) ?_ ?_ ?_ ?_
+          · rw [ha _ rfl]; simpa [recvData] using ht.recv
+          · simp [chkGreetOnly, isGreetOut]
+          · simp [chkGreetIf, isSrcGreet]
+          · simp [chkTermOnly, isTermOut, isSrcEnd, hall']
+          · simp [chkTermIf, isTermOut]
+        · refine finish n hb hr' he (stuck_ret n _ _ _ _ hctx) (fun hIX hrX => ?_)
+          have hall : ¬ allBelow n (fun j => srcEnded j (.inp (.srcDown i (.err e)) :: tr)) = true := by
+            intro hc
+            apply hz
+            apply (allEnded_iff hrX hIX.2.1).1
+            simpa [retCfg, srcEnded] using hc
+          refine T_ret n (by rw [ha _ rfl]; exact hv) hf1 ?_
+          refine ht.step _ _ rfl rfl ?_ (by simp [isDataOut]) ?_ ?_ ?_ ?_
+          · rw [ha _ rfl]; simpa [recvData] using ht.recv
+          · simp [chkGreetOnly, isGreetOut]
+          · simp [chkGreetIf, isSrcGreet]
+          · simp [chkTermOnly, isTermOut]
+          · simp [chkTermIf, hall]
+  | @ret st stk g tr o l hl =>
+    simp only at hv hf ht hg hm
+    obtain ⟨hcont, hctx⟩ := cont_cases hm
+    have hf1 : Fin0 g.ph (.retE :: tr) := hf.skip _ (Or.inl rfl)
+    obtain ⟨hq, ha⟩ := ht.quiet .retE .retO rfl rfl rfl rfl
+    rcases hcont with rfl | ⟨i, rfl⟩ | ⟨j, u, rfl⟩
+    · exact finish n hb hr' (run_done n st stk g (.retE :: tr)) (stuck_ret n _ _ _ _ hctx)
+        (fun _ _ => T_ret n (by rw [ha]; exact hv) hf1 hq)
+    · rcases run_subLoop n i st stk g (.retE :: tr) with ⟨_, he⟩ | ⟨_, he⟩
+      · obtain ⟨hq, ha⟩ := ht.quiet .retE (.out (.subSrc i)) rfl rfl rfl rfl
+        exact finish n hb hr' he (stuck_call ..) (fun _ _ => T_call n (by rw [ha]; exact hv) hf1 (fun d h => by cases h) hq)
+      · exact finish n hb hr' he (stuck_ret n _ _ _ _ hctx) (fun _ _ => T_ret n (by rw [ha]; exact hv) hf1 hq)
+    · rcases run_uLoop n j u st stk g (.retE :: tr) with he | he | he
+      · obtain ⟨hq, ha⟩ := ht.quiet .retE (.out (.srcUp j u)) rfl rfl rfl rfl
+        exact finish n hb hr' he (stuck_call ..) (fun _ _ => T_call n (by rw [ha]; exact hv) hf1 (fun d h => by cases h) hq)
+      · exact finish n hb hr' he (stuck_ret n _ _ _ _ hctx) (fun _ _ => T_ret n (by rw [ha]; exact hv) hf1 hq)
+      · exact finish n hb hr' rfl (stuck_panic n _ he) (fun hIX _ => (no_panic hIX.1 he).elim)
+
+theorem finv_init (n : Nat) : FInv n (Sys.init (machine α n)) := by
+  refine ⟨.init, inv_init n, ?_, ?_, TrOK.nil n⟩
+  · show List.replicate n none = latest n (arrivals [])
+    simp [arrivals, latest]
+  · exact ⟨fun h => by simp [Sys.init] at h, fun _ => rfl⟩
+
+/-- C10: the functional specification of `combine!` holds on the trace of every reachable configuration in which the
+environment has control — every arity, history, nesting depth and data value. -/
+theorem combine_spec {α : Type} [DecidableEq α] (n : Nat) :
+    ∀ s, SReach (Combine.machine α n) s → EnvTurn s → combineOk n s.tr = true := by
+  intro s hs ht
+  obtain ⟨k, hk⟩ := reach_runs_into_inv (machine α n) anyEnv (FInv n) (finv_init n) (fun s h => (inv_turn n s h.2.1).1)
+    (fun s s' m hi he _ => finv_step n s s' m hi he) s hs
+  rw [advance_of_envTurn ht] at hk
+  obtain ⟨_, _, _, hf, hT⟩ := hk
+  rw [combineOk_eq]
+  simp only [Bool.and_eq_true, decide_eq_true_eq, beq_iff_eq]
+  exact ⟨⟨⟨⟨⟨⟨hT.recv, hT.cause⟩, hT.greetOnly⟩, hT.greetIf⟩, hT.termOnly⟩, hT.termIf⟩, hf.le⟩
+
 end Cb.CombineFun
+
+#print axioms Cb.CombineFun.combine_spec
